@@ -93,6 +93,7 @@ impl Engine for TcpEyesEngine {
             delay: if n == 0 { timeout_ms } else { timeout_ms.map(|t| t / n as u64) },
             timeout: timeout_ms,
             conc: c.conc.map(|x| x as usize),
+            reuse: None,
         };
         let want = reference(&model);
         if want.res == Res::Hang {
